@@ -53,7 +53,17 @@ func bindHashMap(d *drv, m *hashmap.Map[int, int]) {
 	d.keys, d.get, d.put, d.remove = m.Keys, m.Get, m.Put, m.Remove
 	d.links = func() bool { return true }
 	d.fingerprint = func() string { return "HM" + fmt.Sprint(hashMapEntries(m)) }
-	d.mutate = func() { m.Clear(); m.Put(mutateMark, mutateMark) }
+	d.mutate = func() {
+		// in-place writes first (Clear may replace the backing structure and hide sharing)
+		ks := m.Keys()
+		m.Put(mutateMark, mutateMark)
+		if len(ks) > 0 {
+			m.Put(ks[0], mutateMark+1)
+			m.Remove(ks[len(ks)-1])
+		}
+		m.Clear()
+		m.Put(mutateMark, mutateMark)
+	}
 }
 
 func bindTreeMap(d *drv, m *treemap.Map[int, int]) {
@@ -81,7 +91,17 @@ func bindTreeMap(d *drv, m *treemap.Map[int, int]) {
 		t := m.VerifInner()
 		return fmt.Sprintf("TM%s size=%d", rbTreeShape(t), t.Size())
 	}
-	d.mutate = func() { m.Clear(); m.Put(mutateMark, mutateMark) }
+	d.mutate = func() {
+		// in-place writes first (Clear may replace the backing structure and hide sharing)
+		ks := m.Keys()
+		m.Put(mutateMark, mutateMark)
+		if len(ks) > 0 {
+			m.Put(ks[0], mutateMark+1)
+			m.Remove(ks[len(ks)-1])
+		}
+		m.Clear()
+		m.Put(mutateMark, mutateMark)
+	}
 }
 
 func bindLinkedHashMap(d *drv, m *linkedhashmap.Map[int, int]) {
@@ -129,7 +149,17 @@ func bindLinkedHashMap(d *drv, m *linkedhashmap.Map[int, int]) {
 		return true
 	}
 	d.fingerprint = func() string { return "LHM" + fmt.Sprint(tableEntries()) + dllFP(m.VerifOrdering()) }
-	d.mutate = func() { m.Clear(); m.Put(mutateMark, mutateMark) }
+	d.mutate = func() {
+		// in-place writes first (Clear may replace the backing structure and hide sharing)
+		ks := m.Keys()
+		m.Put(mutateMark, mutateMark)
+		if len(ks) > 0 {
+			m.Put(ks[0], mutateMark+1)
+			m.Remove(ks[len(ks)-1])
+		}
+		m.Clear()
+		m.Put(mutateMark, mutateMark)
+	}
 }
 
 func bindHashBidiMap(d *drv, m *hashbidimap.Map[int, int]) {
@@ -140,7 +170,17 @@ func bindHashBidiMap(d *drv, m *hashbidimap.Map[int, int]) {
 	d.fingerprint = func() string {
 		return "HBM" + fmt.Sprint(hashMapEntries(m.VerifInner())) + fmt.Sprint(hashMapEntries(m.VerifInverse()))
 	}
-	d.mutate = func() { m.Clear(); m.Put(mutateMark, mutateMark) }
+	d.mutate = func() {
+		// in-place writes first (Clear may replace the backing structure and hide sharing)
+		ks := m.Keys()
+		m.Put(mutateMark, mutateMark)
+		if len(ks) > 0 {
+			m.Put(ks[0], mutateMark+1)
+			m.Remove(ks[len(ks)-1])
+		}
+		m.Clear()
+		m.Put(mutateMark, mutateMark)
+	}
 }
 
 func bindTreeBidiMap(d *drv, m *treebidimap.Map[int, int]) {
@@ -165,7 +205,17 @@ func bindTreeBidiMap(d *drv, m *treebidimap.Map[int, int]) {
 		f, i := m.VerifInner(), m.VerifInverse()
 		return fmt.Sprintf("TBM%s size=%d %s size=%d", rbTreeShape(f), f.Size(), rbTreeShape(i), i.Size())
 	}
-	d.mutate = func() { m.Clear(); m.Put(mutateMark, mutateMark) }
+	d.mutate = func() {
+		// in-place writes first (Clear may replace the backing structure and hide sharing)
+		ks := m.Keys()
+		m.Put(mutateMark, mutateMark)
+		if len(ks) > 0 {
+			m.Put(ks[0], mutateMark+1)
+			m.Remove(ks[len(ks)-1])
+		}
+		m.Clear()
+		m.Put(mutateMark, mutateMark)
+	}
 }
 
 func bindRBTree(d *drv, t *rbt.Tree[int, int]) {
